@@ -306,6 +306,7 @@ FWD_ARGS = {
     "fp_improve": [("w", Z), ("carr", Z), ("tm", Z)],
     "fp_label": [("same", B), ("lab_none", B), ("lab_arr", Z), ("carr", Z)],
     "newtau":  [("w", Z), ("carr", Z)],
+    "tent":    [("carr", Z)],
     "best_time": [("exit_arr", Z), ("row_time", Z)],
     "best_ok": [("t", Z), ("kdep", Z), ("maxtt", Z), ("best", Z)],
 }
@@ -324,6 +325,7 @@ FWD_HAND = {
     "fp_improve": "(w + carr <? tm)",
     "fp_label": "(same && (lab_none || (lab_arr >? carr)))",
     "newtau": "(w + carr)",
+    "tent": "carr",
     "best_time": "(exit_arr + row_time)",
     "best_ok": "((t >=? 0) && (t - kdep <=? maxtt) && (t <? best) && (t <? MAX_INT))",
 }
@@ -345,6 +347,7 @@ REV_ARGS = {
     "acc_after_dep": [("kdep", Z), ("acc_found", B), ("cdep", Z), ("acc_time", Z), ("minw", Z)],
     "acc_cap": [("kdep", Z), ("maxfw", Z), ("cdep", Z), ("acc_time", Z)],
     "newtaur": [("cdep", Z), ("w", Z), ("minw", Z)],
+    "tent":    [("cdep", Z), ("minw", Z)],
     "best_time": [("enter_dep", Z), ("row_time", Z), ("enter_minw", Z)],
     "best_ok": [("t", Z), ("karr", Z), ("maxtt", Z), ("best", Z)],
 }
@@ -368,6 +371,7 @@ REV_HAND = {
     "acc_after_dep": "((kdep =? -1) || (acc_found && (cdep - acc_time - minw >=? kdep)))",
     "acc_cap": "((kdep =? -1) || (maxfw <=? 0) || (cdep - kdep - acc_time <=? maxfw))",
     "newtaur": "(cdep - w - minw)",
+    "tent": "(cdep - minw)",
     "best_time": "(enter_dep - row_time - enter_minw)",
     "best_ok": "((t >=? 0) && (karr - t <=? maxtt) && (t >? best) && (t <? MAX_INT))",
 }
@@ -392,6 +396,8 @@ ASSIGN = {
     ("fwd", "accessed"): r"nodeWasAccessedFromOrigin",
     ("fwd", "newtau"): r"nodesTentativeTime\[transferableNode\.node\.uid\]",
     ("fwd", "best_time"): r"egressNodeArrivalTime",
+    ("fwd", "tent"): r"tentativeEgressNodeArrivalTime",
+    ("rev", "tent"): r"tentativeAccessNodeDepartureTime",
     ("rev", "newtaur"): r"nodesReverseTentativeTime\[transferableNode\.node\.uid\]",
     ("rev", "best_time"): r"int\s+accessNodeDepartureTime",
 }
@@ -420,7 +426,7 @@ def gen_copy(prefix, direction, src, spec, args, hand, atoms, report):
                     text = assignment(body, ASSIGN[(direction, name)])
                 except Exception:
                     text = None
-        ty = Z if name in ("newtau", "newtaur", "best_time") else B
+        ty = Z if name in ("newtau", "newtaur", "best_time", "tent") else B
         expr, origin = None, "hand"
         if text is not None:
             try:
@@ -442,6 +448,51 @@ def gen_copy(prefix, direction, src, spec, args, hand, atoms, report):
     return defs
 
 
+ATOMS_ALT = {
+    "alternativesCalculatedCount": ("count", Z),
+    "maxAlternatives": ("maxalt", Z),
+    "alternativeSequence": ("seq", Z),
+    "parameters.getMaxValidAlternatives()": ("maxvalid", Z),
+}
+
+
+def gen_alt(report):
+    """alternatives_routing.cpp: initial values of the two counters and the condition under which one more
+    alternative is calculated"""
+    defs = []
+    hand = dict(seq_init="1", count_init="1", cont="((count <? maxalt) && (seq - 1 <? maxvalid))")
+    vals = dict(hand)
+    origin = dict(seq_init="hand", count_init="hand", cont="hand")
+    try:
+        src = strip_c_comments(open(os.path.join(REPO, "connection_scan_algorithm/src/alternatives_routing.cpp")).read())
+        for key, var in (("seq_init", "alternativeSequence"), ("count_init", "alternativesCalculatedCount")):
+            m = re.search(r"\bint\s+" + var + r"\s*(?:=\s*(-?\d+)|\{\s*(-?\d+)\s*\})\s*;", src)
+            if m:
+                v = int(m.group(1) if m.group(1) is not None else m.group(2))
+                vals[key] = str(v) if v >= 0 else "(%d)" % v
+                origin[key] = "source"
+            else:
+                report["fallback"].append("alt_%s: declaration not found" % key)
+        conds = [c for c in conditions(src) if "alternativeSequence" in c and "alternativesCalculatedCount" in c]
+        if len(conds) == 1:
+            try:
+                expr, used = translate(conds[0], ATOMS_ALT, B)
+                vals["cont"] = expr
+                origin["cont"] = "source"
+            except Untranslatable as e:
+                report["fallback"].append("alt_cont: %s" % e)
+        else:
+            report["fallback"].append("alt_cont: %d candidate conditions" % len(conds))
+    except Exception as e:
+        report["fallback"].append("alt: %s" % e)
+    for k in ("seq_init", "count_init", "cont"):
+        report["guards"]["alt_" + k] = origin[k]
+    defs.append("Definition gen_alt_seq_init : Z := %s.   (* %s *)" % (vals["seq_init"], origin["seq_init"]))
+    defs.append("Definition gen_alt_count_init : Z := %s.   (* %s *)" % (vals["count_init"], origin["count_init"]))
+    defs.append("Definition gen_alt_cont (count : Z) (maxalt : Z) (seq : Z) (maxvalid : Z) : bool :=\n  %s.   (* %s *)" % (vals["cont"], origin["cont"]))
+    return defs
+
+
 def regenerate():
     report = dict(guards={}, fallback=[])
     fsrc = strip_c_comments(open(os.path.join(REPO, "connection_scan_algorithm/src/forward_calculation.cpp")).read())
@@ -452,11 +503,12 @@ def regenerate():
     # the all-nodes copies have no reached/egress bookkeeping and no best selection: those names fall back to the
     # hand definitions and are not used by the tie
     out += gen_copy("fwd", "fwd", fsrc, FWD_ROUTE, FWD_ARGS, FWD_HAND, ATOMS_FWD, report)
-    out += gen_copy("fwdall", "fwd", fsrc, FWD_ALL, {k: v for k, v in FWD_ARGS.items() if k not in ("egr_reached", "best_time", "best_ok")},
+    out += gen_copy("fwdall", "fwd", fsrc, FWD_ALL, {k: v for k, v in FWD_ARGS.items() if k not in ("egr_reached", "best_time", "best_ok", "tent")},
                     FWD_HAND, ATOMS_FWD, report)
     out += gen_copy("rev", "rev", rsrc, REV_ROUTE, REV_ARGS, REV_HAND, ATOMS_REV, report)
-    out += gen_copy("revall", "rev", rsrc, REV_ALL, {k: v for k, v in REV_ARGS.items() if k not in ("acc_reached", "best_time", "best_ok")},
+    out += gen_copy("revall", "rev", rsrc, REV_ALL, {k: v for k, v in REV_ARGS.items() if k not in ("acc_reached", "best_time", "best_ok", "tent")},
                     REV_HAND, ATOMS_REV, report)
+    out += gen_alt(report)
     text = "\n".join(out) + "\n"
     os.makedirs(os.path.dirname(OUT), exist_ok=True)
     old = open(OUT).read() if os.path.exists(OUT) else None
